@@ -75,7 +75,12 @@ def r20_2(ctx: Ctx) -> None:
         sites.append(rd_reads[0][0])  # one call that stands for the read and its retries
     for c, size_arg in rd_reads:
         srcs = q.sources_of(rd, size_arg, depth=2) if size_arg is not None else []
-        ok = size_arg is not None and any(isinstance(s, ast.Call) and dotted(s.func) == "min" and any("block_size" in norm(a) for a in s.args) for s in srcs)
+        def bounded(e: ast.AST) -> bool:
+            if isinstance(e, ast.Call) and dotted(e.func) == "min" and any("block_size" in norm(a) for a in e.args):
+                return True
+            # `min(rest, block) - unused` is at most the block as well (what is subtracted counts bytes: it is not negative)
+            return isinstance(e, ast.BinOp) and isinstance(e.op, ast.Sub) and bounded(e.left)
+        ok = size_arg is not None and any(bounded(s) for s in srcs)
         ctx.check(ok, "R20.2", rd, c, "packed input is read at most one block at a time", "_read_data reads packed input without a min(..., block_size) bound (e.g. the whole remaining stream)")
         sites.append(c)
     cp = ctx.prog.func("compressor", "SevenZipCompressor.compress")
